@@ -2,7 +2,7 @@
    Integer expressions of Go's fixed-width types are modelled over Z with the wrap-around written out,
    division and remainder truncate toward zero and panic on a zero divisor, loops run on explicit fuel.
    Definitions only; the laws used by the theorems about translated code are in GoSemProofs.v. *)
-From Coq Require Import ZArith String Bool.
+From Coq Require Import ZArith String Bool List.
 Open Scope Z_scope.
 
 Inductive res (A : Type) : Type :=
@@ -58,6 +58,26 @@ Definition go_ne (a b : Z) : res bool := Val (negb (a =? b)).
    idiom says nothing: the model panics there, so no theorem can rely on it. *)
 Definition go_ceil_half_f64 (x : Z) : res Z :=
   if (Z.abs x <=? 2 ^ 53) then Val ((x + 1) / 2) else Panic "float64 rounding outside the modelled range".
+
+(* slices of opaque values: len, s[i] and s[i] = x panic outside 0 <= i < len(s) *)
+Definition go_len {A} (l : list A) : res Z := Val (Z.of_nat (length l)).
+
+Fixpoint upd_nth {A} (l : list A) (i : nat) (x : A) : list A :=
+  match l, i with
+  | nil, _ => nil
+  | _ :: r, O => x :: r
+  | y :: r, S k => y :: upd_nth r k x
+  end.
+
+Definition go_index {A} (l : list (option A)) (i : Z) : res (option A) :=
+  if (0 <=? i) && (i <? Z.of_nat (length l))
+  then Val (nth (Z.to_nat i) l None)
+  else Panic "index out of range".
+
+Definition go_set_index {A} (l : list A) (i : Z) (x : A) : res (list A) :=
+  if (0 <=? i) && (i <? Z.of_nat (length l))
+  then Val (upd_nth l (Z.to_nat i) x)
+  else Panic "index out of range".
 
 Module GoNotations.
   Notation "x <- m ;; k" := (bind m (fun x => k)) (at level 61, m at next level, right associativity).
